@@ -719,7 +719,9 @@ pub fn run_history(root: &str, scn: &mut Scn, oracle: &mut Oracle, st: &mut Stat
         st.getrandom += rec.getrandom_calls;
         let reject = matches!(e, Expect::Reject);
         if rec.out.timed_out && !reject {
+            // same reasoning as in c19: the library answered every stage in the oracle processes
             st.hangs += 1;
+            result = Some(Fail { clause: "no-exit", inv: i, detail: format!("no exit within {} s on a fault-free invocation with all prompts answered; stdout so far {:?}", cli::INV_TIMEOUT_MS / 1000, tail(&rec.out.stdout)) });
             break;
         }
         let rec_after = cli::snapshot(root);
@@ -854,7 +856,7 @@ fn rerender(scn: &Scn) -> Scn {
 }
 
 pub fn shrink(root: &str, scn: &Scn, fail: &Fail, oracle: &mut Oracle) -> (Scn, Fail) {
-    let mut budget = 150u32;
+    let mut budget = if fail.clause == "no-exit" || fail.clause == "cycle-not-rejected" { 8u32 } else { 150u32 };
     let mut cur = scn.clone();
     let mut curf = fail.clone();
     cur.invs.truncate(curf.inv + 1);
